@@ -163,6 +163,11 @@ func genTmpl(t *rapid.T) tmpl {
 		x.prepend = rapid.SampledFrom([]string{"/prefix", "/p_2"}).Draw(t, "prepend")
 		routePath = x.strip
 	}
+	// a route whose own path is shorter than what it strips: the strip applies only to
+	// requests that start with it
+	if x.strip != "" && rapid.IntRange(0, 2).Draw(t, "route-shorter-than-strip") == 0 {
+		routePath = "/"
+	}
 	if !x.hasPath {
 		x.strip, x.prepend, routePath = "", "", rapid.SampledFrom([]string{"/", "/old"}).Draw(t, "fixedroute")
 	}
@@ -187,6 +192,9 @@ func genReq(t *rapid.T, x tmpl) reqSpec {
 	start := ""
 	if rp != "/" {
 		start = rp
+	} else if x.strip != "" {
+		// the stripped piece at the front, further down the path, or not at all
+		start = rapid.SampledFrom([]string{x.strip, "/docs" + x.strip, "/d" + x.strip + x.strip, ""}).Draw(t, "strip-position")
 	}
 	r := reqSpec{host: host, rawPath: genRawPath(t, start)}
 	if rapid.IntRange(0, 2).Draw(t, "hasq") == 0 {
